@@ -282,10 +282,11 @@ fn seeds(ctx: &Ctx, env: &Env) -> Vec<(String, Vec<u8>)> {
         use vlib::refhdr::Val;
         let mut p = foreign::package("hand", &files[..1], foreign::newc_archive(&files[..1], &[0]), None, false);
         p.main.retain(|(t, _)| ![1004u32, 1005].contains(t));
-        p.main.push((100, Val::strs(&["C", "de"])));
-        p.main.push((1004, Val::i18n(&["summary", "Zusammenfassung"])));
-        p.main.push((1005, Val::i18n(&["description", "Beschreibung"])));
-        p.main.push((1016, Val::i18n(&["group", "Gruppe"])));
+        // "C" is not the first locale of the table
+        p.main.push((100, Val::strs(&["de", "C", "fr"])));
+        p.main.push((1004, Val::i18n(&["Zusammenfassung", "summary", "résumé"])));
+        p.main.push((1005, Val::i18n(&["Beschreibung", "description", "description fr"])));
+        p.main.push((1016, Val::i18n(&["Gruppe", "group", "groupe"])));
         v.push(("hand-i18n".to_string(), with_digests(&p, &DigestPlan { md5: D::Correct, sha1: D::Correct, sha256: D::Correct, payload: D::Correct, algo: 8 }).0));
     }
     for rel in ["test_assets/fixture_packages/rpm-empty-0-0.x86_64.rpm", "test_assets/fixture_packages/rpm-empty-0-0.src.rpm"] {
@@ -503,12 +504,14 @@ fn cpio_sweep(tools: Arc<Tools>) -> Sweep {
     }));
     let long_variants = [false, true];
     // sizes the *header* declares for the first file (stripped entries take their length from the header)
-    let size_overrides: [Option<u64>; 9] = [None, Some(0), Some(u32::MAX as u64), Some(1 << 32), Some((1 << 32) + 1), Some(1 << 63), Some(u64::MAX - 3), Some(u64::MAX - 1), Some(u64::MAX)];
+    // u64::MAX - 7 stands for: EVERY file declared with 2^63 bytes and the package-level size tags removed (sums of sizes)
+    const ALL_HUGE: u64 = u64::MAX - 7;
+    let size_overrides: [Option<u64>; 10] = [None, Some(0), Some(u32::MAX as u64), Some(1 << 32), Some((1 << 32) + 1), Some(1 << 63), Some(u64::MAX - 3), Some(u64::MAX - 1), Some(u64::MAX), Some(ALL_HUGE)];
     let n = n_arch as u64 * 2 * size_overrides.len() as u64;
-    let rule = format!("{} hostile cpio archives inside an otherwise valid uncompressed hand-encoded package (every truncation; each of the 13 header fields of the first entry and size/namesize of the second ∈ boundary / non-hex values, i.e. name length 0/1/4096/4097/2^32−1 and file sizes up to 2^32−1; stripped entries with index 0..n+1, 2^31−1, 2^32−2, 2^32−1 with and without alignment bytes; missing trailer; bad magic; unterminated / non-UTF-8 name; crc-flavoured entries with right / zero / wrong checksum and byte sums passing 2^31 and 2^32; runs of 3 000 and 200 000 consecutive foreign entries / repeated entries / trailers) × header with 32-bit / 64-bit size tags × size declared by the header for the first file ∈ {{as archived, 0, 2^32−1, 2^32, 2^32+1, 2^63, 2^64−4, 2^64−2, 2^64−1}} (for the valid and the stripped archives)", n_arch);
+    let rule = format!("{} hostile cpio archives inside an otherwise valid uncompressed hand-encoded package (every truncation; each of the 13 header fields of the first entry and size/namesize of the second ∈ boundary / non-hex values, i.e. name length 0/1/4096/4097/2^32−1 and file sizes up to 2^32−1; stripped entries with index 0..n+1, 2^31−1, 2^32−2, 2^32−1 with and without alignment bytes; missing trailer; bad magic; unterminated / non-UTF-8 name; crc-flavoured entries with right / zero / wrong checksum and byte sums passing 2^31 and 2^32; runs of 3 000 and 200 000 consecutive foreign entries / repeated entries / trailers) × header with 32-bit / 64-bit size tags × size declared by the header for the first file ∈ {{as archived, 0, 2^32−1, 2^32, 2^32+1, 2^63, 2^64−4, 2^64−2, 2^64−1; every file declared with 2^63 bytes and no package-level size tag}} (for the valid and the stripped archives)", n_arch);
     Sweep::new("hostile-cpio", rule, n, move |i, acc| {
-        let so = size_overrides[(i % 9) as usize];
-        let i2 = i / 9;
+        let so = size_overrides[(i % 10) as usize];
+        let i2 = i / 10;
         let ai = (i2 / 2) as usize;
         let generated;
         let (what, arch): (&String, &Vec<u8>) = if ai < n_eager {
@@ -529,8 +532,15 @@ fn cpio_sweep(tools: Arc<Tools>) -> Sweep {
         if let Some(v) = so {
             let tag = if long { 5008 } else { 1028 };
             let n = files.len();
-            let val = if long { Val::Int64((0..n).map(|k| if k == 0 { v } else { files[k].archive_data().len() as u64 }).collect()) } else { Val::Int32((0..n).map(|k| if k == 0 { v as u32 } else { files[k].archive_data().len() as u32 }).collect()) };
+            let all = v == ALL_HUGE;
+            let each = |k: usize| if all { 1u64 << 63 } else if k == 0 { v } else { files[k].archive_data().len() as u64 };
+            let val = if long { Val::Int64((0..n).map(each).collect()) } else { Val::Int32((0..n).map(|k| if all { u32::MAX } else { each(k) as u32 }).collect()) };
             set(&mut parts.main, tag, Some(val));
+            if all {
+                for t in [1009u32, 5009] {
+                    set(&mut parts.main, t, None);
+                }
+            }
             parts = split(&with_digests(&parts, &DigestPlan { md5: D::Correct, sha1: D::Correct, sha256: D::Correct, payload: D::Correct, algo: 8 }).0).expect("splits");
         }
         let x = parts.join().0;
